@@ -114,7 +114,7 @@ PROPS = {
             {"family": "hist", "flags": ["--faults"], "quick": {"cases": 400, "max_len": 35}, "thorough": {"cases": 6000, "max_len": 80}},
             {"family": "hist", "flags": ["--faults", "--stepped"], "quick": {"cases": 150, "max_len": 40}, "thorough": {"cases": 3000, "max_len": 80}},
             # an interrupted FIRST sync of a late joiner (snapshot, then the versions after it): nothing may stay behind
-            {"family": "hist", "flags": ["--faults", "--snapshots"], "quick": {"cases": 150, "max_len": 35}, "thorough": {"cases": 3000, "max_len": 80}},
+            {"family": "hist", "flags": ["--faults", "--snapshots"], "quick": {"cases": 150, "max_len": 35}, "thorough": {"cases": 600, "max_len": 50}},
         ],
         "judge_preds": ["converged", "invariant", "no-out-of-sync"],
         "nontrivial": nt_fault,
@@ -307,7 +307,7 @@ PROPS = {
             {"family": "sqlkill", "driver": "rep", "flags": [], "quick": {"cases": 40, "max_len": 400}, "thorough": {"cases": 600, "max_len": 1500}},
             # interrupted syncs of several replicas (one third on SQLite), incl. the first sync of a late joiner that
             # starts from a snapshot: after the interruption the replica holds the before-state (dump after every fault)
-            {"family": "hist", "flags": ["--faults", "--snapshots"], "quick": {"cases": 100, "max_len": 35}, "thorough": {"cases": 2000, "max_len": 80}},
+            {"family": "hist", "flags": ["--faults", "--snapshots"], "quick": {"cases": 100, "max_len": 35}, "thorough": {"cases": 300, "max_len": 50}},
         ],
         "judge_preds": ["atomic"],
         "nontrivial": lambda imp, ops: any(l.startswith("F ") for l in ops),
